@@ -125,7 +125,7 @@ func (e *c14Env) refuse(name string, signer *sim.Acct, msg sdk.Msg, on func(), o
 func TestC14(t *testing.T) {
 	rec := ev.New("C14", "exploration", "matrix {vault / stable-mint / locker / liquidate / bid handlers} x {breaker on, shutdown executed within and after cool-off, needed price inactive}: with the control ON the real signed tx must fail with an identical full-state dump, with the control OFF (admin message / price re-activated) the same message must succeed on the same state; shutdown cells and price-dependence detection run the handler through the message router on forks under the spy multistore; sweep cells compare a block with the breaker on (nothing seized / no auction opened) with the next block after switching it off. distinct = (cell, outcome)")
 	defer finish(t, rec)
-	rounds := ev.Pick(1, 4)
+	rounds := ev.Pick(3, 10)
 	for round := 0; round < rounds; round++ {
 		c14Round(t, rec, round)
 		c14Lend(t, rec, round)
@@ -364,6 +364,62 @@ func c14Round(t *testing.T, rec *ev.Rec, round int) {
 			// make the vault unsafe
 			pin, _ := u.price(p.In)
 			r.env("price", "crash for sweep cell", func() { u.setPrice(p.In.Denom, pin/4+1, true) })
+			// the vault is unsafe now: seizing it (by message or by the sweep) needs the collateral feed and the debt
+			// feed (the auction is priced in both); with exactly one of them inactive nothing may happen
+			lm := &liqV2types.MsgLiquidateInternalKeeperRequest{From: fresh.Addr.String(), LiqType: 0, Id: v.Id}
+			if live, _, _, _ := e.handlerOnFork(lm, nil); live {
+				rec.Count("live:price/liquidate-message-gen2/unsafe-vault", 1)
+				for _, side := range []struct {
+					role string
+					as   *uAsset
+				}{{"collateral", p.In}, {"debt", p.Out}} {
+					as := side.as
+					if _, act := u.price(as); !act {
+						continue
+					}
+					off := func(ctx sdk.Context) {
+						tw, _ := c.App.MarketKeeper.GetTwa(ctx, as.ID)
+						tw.IsPriceActive = false
+						c.App.MarketKeeper.SetTwa(ctx, tw)
+					}
+					ok2, changed, _, errStr := e.handlerOnFork(lm, off)
+					rec.Eval(1)
+					rec.Count("price_cells_checked", 1)
+					w := map[string]interface{}{"vault": v.Id, "product": p.ID, "debt_priced_by_oracle": p.P.AssetOutOraclePrice, "inactive_feed": as.Denom, "error": errStr}
+					if ok2 {
+						rec.Violate("C14/price/liquidate-message-gen2/unsafe-vault/accepted-with-inactive-"+side.role+"-feed", "an unsafe vault was seized and put up for auction although a price the auction needs is inactive", w)
+					} else if changed {
+						rec.Violate("C14/price/liquidate-message-gen2/unsafe-vault/refused-but-state-changed", "the refused liquidation changed state", w)
+					}
+					// the sweep of a real block with that one feed inactive
+					px, _ := u.price(as)
+					r.env("price", "inactive "+as.Denom, func() { u.setPrice(as.Denom, px, false) })
+					pre := u.snap()
+					r.block(6 * time.Second)
+					post := u.snap()
+					rec.Eval(1)
+					_, still := post.Vaults[v.Id]
+					newAuc := 0
+					for id, a := range post.AucV2 {
+						if _, was := pre.AucV2[id]; !was && a.AppId == app && (a.CollateralAssetId == as.ID || a.DebtAssetId == as.ID) {
+							newAuc++
+						}
+					}
+					if !still || newAuc > 0 {
+						w["vault_still_open"], w["new_auctions_needing_the_feed"] = still, newAuc
+						rec.Violate("C14/price/sweep-gen2/seized-with-inactive-"+side.role+"-feed", "the sweep seized a vault / opened an auction although a price it needs is inactive", w)
+					}
+					r.env("price", "active "+as.Denom, func() { u.setPrice(as.Denom, px, true) })
+					rec.Count("price_sweep_cells_checked", 1)
+					if !still {
+						break
+					}
+				}
+			}
+			if _, still := u.snap().Vaults[v.Id]; !still {
+				r.env("price", "restore", func() { u.setPrice(p.In.Denom, pin, true) })
+				continue
+			}
 			e.setBreaker(app, true)
 			before := u.snap()
 			r.block(6 * time.Second)
